@@ -256,7 +256,7 @@ fn check_cli(l: &mut Local, name: &str, args: &[&str], rows: usize, cols: usize,
 
 
 pub fn run(run: &mut Run, extra: &[String]) {
-    run.rule = "EXHAUSTIVE over the 9 (rate, k) AR4JA codes and C2: size 3M x (k+3M) with M = k/2, k/4, k/8; every (M/4)x(M/4) sub-block circulant; protograph block-column degrees ([2,3,1,3,6] plus 4s; punctured block 6); invertible last 3M columns by own bit-packed elimination (hence full row rank; k=16384 in thorough only); Encoder::from_h + encode + syndrome for k=1024 (and 4096 in thorough); girth 6 for r1/2 k=1024 by own bounded BFS and girth(); C2: 1022 x 8176, 2x16 weight-2 511-circulants, row weight 32, column weight 4, rank exactly 1020, girth 6; SHA-256 pins for all ten, also through the real binary's ccsds / ccsds-c2 subcommands; every configuration is non-trivial".into();
+    run.rule = "EXHAUSTIVE over the 9 (rate, k) AR4JA codes and C2: size 3M x (k+3M) with M = k/2, k/4, k/8; every (M/4)x(M/4) sub-block circulant; protograph block-column degrees ([2,3,1,3,6] plus 4s; punctured block 6); invertible last 3M columns by own bit-packed elimination (hence full row rank; k=16384 in thorough only); Encoder::from_h + encode + syndrome for k=1024 (and 4096 in thorough); girth 6 for r1/2 k=1024 by own bounded BFS and girth(); C2: 1022 x 8176, 2x16 weight-2 511-circulants, row weight 32, column weight 4, rank exactly 1020, girth 6; SHA-256 pins for all ten, also through the real binary's ccsds / ccsds-c2 subcommands; all 100 ordered pairs of codes constructed back to back on one fresh thread; every configuration is non-trivial".into();
     run.exhaustive = Some(true);
     run.assumptions = vec![
         "M table and protograph degrees are the harness author's transcription of CCSDS 131.0-B; pins are regression digests (the Blue Book tables are not on this machine)".into(),
@@ -268,6 +268,38 @@ pub fn run(run: &mut Run, extra: &[String]) {
     let collected = Mutex::new(Vec::new());
     run.sub("ar4ja", sp.len() as u64, |l, idx, rng| check_ar4ja(l, &sp[idx as usize], &pins, tier, rng, &collected));
     run.sub_seq("c2", 1, |l, _i, _rng| check_c2(l, &pins, &collected));
+    // call histories (state surviving between calls): every ordered pair of the ten codes back to back on one fresh thread
+    let build = |i: usize| -> ldpc_toolbox::sparse::SparseMatrix {
+        if i < 9 {
+            let s = &specs()[i];
+            AR4JACode::new(s.rate, s.size).h()
+        } else {
+            C2Code::new().h()
+        }
+    };
+    let reference: Vec<ldpc_toolbox::sparse::SparseMatrix> = (0..10).map(|i| std::thread::spawn(move || build(i)).join().expect("h()")).collect();
+    let names: Vec<&'static str> = sp.iter().map(|s| s.name).chain(["C2"]).collect();
+    run.sub("call-histories-ordered-pairs", 100, |l, idx, _rng| {
+        let (a, b) = (idx as usize / 10, idx as usize % 10);
+        l.eval();
+        let res = std::thread::spawn(move || guard(move || (build(a), build(b)))).join();
+        match res {
+            Ok(Ok((first, second))) => {
+                if first != reference[a] || second != reference[b] {
+                    l.violation(
+                        "h() depends on which code was constructed before it on the same thread",
+                        J::obj().set("first_call", names[a]).set("second_call", names[b]).set("second_result", format!("{} x {}", second.num_rows(), second.num_cols())).set("expected", format!("{} x {}", reference[b].num_rows(), reference[b].num_cols())),
+                    );
+                } else if a != b {
+                    let mut d = Dig::new();
+                    d.s("pair").u(a as u64).u(b as u64);
+                    l.nt(d.get());
+                }
+            }
+            Ok(Err(p)) => l.violation(format!("h() panicked in a call history: {}", panic_class(&p)), J::obj().set("first_call", names[a]).set("second_call", names[b]).set("panic", p)),
+            Err(_) => l.inconclusive("history thread could not be joined".to_string()),
+        }
+    });
     if std::path::Path::new(BIN).exists() {
         run.sub("cli-identifiers", (sp.len() + 1) as u64, |l, idx, _rng| {
             if (idx as usize) < sp.len() {
